@@ -79,6 +79,7 @@ class Prog:
         self.ops = []
         self.na = 0
         self.nb = 0
+        self.scale = 1
         self.dims = {}       # array slot -> dim
         self.bdims = {}      # box slot -> dim
 
@@ -110,6 +111,30 @@ REPS_SEQ = {"cross", "dot", "det2", "det3", "cotan", "angle3", "sangle2", "angle
 REPS_CPLX = {"det2"}                          # Union[complex, np.ndarray]
 
 
+def optd(op):
+    """the trailing call-form dict of an op ({} when absent)"""
+    return op[-1] if isinstance(op[-1], dict) else {}
+
+
+def opcore(op):
+    return op[:-1] if isinstance(op[-1], dict) else op
+
+
+def draw_form(rng, value, default):
+    """how an optional argument is passed: omitted (only when it has its default value), positionally, by keyword"""
+    return rng.choice(["o", "p", "k"]) if value == default else rng.choice(["p", "k"])
+
+
+def draw_srep(rng, x, kinds="fni3m"):
+    """representation of one scalar argument: python float / int, np.float64, np.int64, np.float32"""
+    ch = [c for c in kinds if c in "fn"]
+    if float(x) == int(x):
+        ch += [c for c in kinds if c in "im"]
+    if "3" in kinds and abs(float(x)) < 2 ** 20:
+        ch.append("3")
+    return rng.choice(ch or ["f"])
+
+
 def draw_reps(rng, name, n):
     out = []
     for _ in range(n):
@@ -134,6 +159,11 @@ def gen_box_prog(rng):
     P = Prog(rng)
     d = rng.choice([1, 2, 2, 3, 3, 3, 4, 5])
     style = rng.choice(["int", "dyadic", "dyadic", "tiny"])
+    # the box algebra is scale-free: a fraction of the programs lives at 2^40 or at 2^-24
+    P.scale = rng.choice([1, 1, 1, 1, 1, 1, 2.0 ** 40, 2.0 ** -24])
+    if P.scale != 1:
+        _arr = P.arr
+        P.arr = lambda v, dtype=None: _arr([x * P.scale for x in v], "f")
     if rng.random() < 0.3:
         P.ops.append(["seterr", rng.choice(ERRMODES)])
     boxes = []
@@ -156,6 +186,10 @@ def gen_box_prog(rng):
         if len(lo) == len(hi):
             boxes.append(nb)
             P.bdims[nb] = d
+            if rng.random() < 0.3 and P.ops[-3][3] == "f":
+                # the caller goes on using its corner array: the box must not follow
+                P.ops.append(["setcomp", sa, rng.randrange(d), float(rng.choice([7, -3, 0.5])) * P.scale])
+                P.ops.append(["span", nb])
     if not boxes:
         return P
     if rng.random() < 0.35:
@@ -164,7 +198,9 @@ def gen_box_prog(rng):
         if rng.random() < 0.06:
             pts = []
         nb = P.newbox()
-        P.ops.append(["ofpts", nb, pts, rng.choice([0, 0, 0, 0.5, 1, -0.25]), rng.choice(["a", "l", "v"])])
+        pd = rng.choice([0, 0, 0, 0.5, 1, -0.25])
+        P.ops.append(["ofpts", nb, pts, pd, rng.choice(["a", "l", "v"]),
+                      {"form": draw_form(rng, pd, 0), "sreps": [draw_srep(rng, pd)]}])
         if pts:
             boxes.append(nb)
             P.bdims[nb] = d
@@ -186,7 +222,7 @@ def gen_box_prog(rng):
             P.ops.append(["project", b, s, box_rep(rng)])
         elif r < 0.52:
             w = rng.choice(KINDS) if rng.random() > 0.05 else rng.choice(["l3", "L2", ""])
-            P.ops.append(["distance", b, s, w, box_rep(rng)])
+            P.ops.append(["distance", b, s, w, box_rep(rng), {"form": draw_form(rng, w, "l2")}])
         elif r < 0.60:
             nb = P.newbox()
             P.ops.append(["union", nb, b, rng.choice(boxes)])
@@ -199,19 +235,30 @@ def gen_box_prog(rng):
             P.ops.append(["do_intersect", b, rng.choice(boxes)])
         elif r < 0.83:
             P.ops.append(["is_empty", b])
-        elif r < 0.86:
-            P.ops.append(["span", b])
         elif r < 0.89:
-            P.ops.append(["center", b])
+            # the returned array is the caller's: writing into it must not reach the box, and a second call gives a new one
+            k2 = rng.choice(["span", "center"])
+            if rng.random() < 0.5:
+                P.ops.append([k2, b])
+            else:
+                slot = P.na
+                P.na += 1
+                P.dims[slot] = d
+                P.ops.append([k2, b, {"store": slot}])
+                P.ops.append(["setcomp", slot, rng.randrange(d), float(rng.choice([9, -2, 0.25])) * P.scale])
+                P.ops.append([k2, b])
         elif r < 0.94:
-            P.ops.append(["pad_s", b, rng.choice([0.5, 1.0, 0.0, -1.0, 0.25, 2.0])])
+            pv_ = rng.choice([0.5, 1.0, 0.0, -1.0, 0.25, 2.0])
+            P.ops.append(["pad_s", b, pv_, {"sreps": [rng.choice(["f", "n"])]}])
         else:
             pv = P.arr([rng.choice([0, 1, -1, 0.5, 2]) for _ in range(d if rng.random() > 0.1 else d + 1)])
             P.ops.append(["pad_v", b, pv, box_rep(rng)])
     # the classmethod constructors
     if rng.random() < 0.25:
         nb = P.newbox()
-        P.ops.append(["unit_cube", nb, d, rng.random() < 0.5])
+        cen = rng.random() < 0.5
+        P.ops.append(["unit_cube", nb, d, cen, {"form": draw_form(rng, cen, False),
+                                                "sreps": [rng.choice(["i", "m"]), rng.choice(["B", "b", "i"])]}])
         P.bdims[nb] = d
         P.ops.append([rng.choice(["contains", "project"]), nb, rng.choice(pts), box_rep(rng)])
         if rng.random() < 0.5:
@@ -220,8 +267,9 @@ def gen_box_prog(rng):
         P.ops.append(["infinite", P.newbox(), d])
     if d == 3 and rng.random() < 0.3:
         nb = P.newbox()
-        P.ops.append(["of_mesh", nb, [P.arr(rand_vec(rng, 3, style), "f") for _ in range(rng.choice([1, 2, 4]))],
-                      rng.choice([0, 0, 0.5, 1])])
+        pd = rng.choice([0, 0, 0.5, 1])
+        P.ops.append(["of_mesh", nb, [P.arr(rand_vec(rng, 3, style), "f") for _ in range(rng.choice([1, 2, 4]))], pd,
+                      {"form": draw_form(rng, pd, 0), "sreps": [draw_srep(rng, pd)]}])
     # TWINS: every call that returns a box, repeated with the same arguments, must return an object sharing nothing with
     # the first one: the first result is then modified in place (pad) and the second one looked at again
     makers = [(j, o) for j, o in enumerate(P.ops) if o[0] in ("box", "ofpts", "union", "inter", "unit_cube", "infinite", "of_mesh")]
@@ -254,13 +302,20 @@ def vec3(rng, style, kind="any"):
 ANGLES = [k / 8.0 for k in range(-40, 41)] + [0.0, 2.0 ** -45, -2.0 ** -45, 6.25, 3.125, 100.5, -77.75]
 
 
+SCALE_FREE_R = [0.03, 0.09, 0.13, 0.2, 0.25, 0.3, 0.4, 0.5, 0.53, 0.65]      # cross/dot, norms, normalized, det, cotan, angles, circum
+
+
 def gen_vec_prog(rng):
     P = Prog(rng)
     style = rng.choice(["int", "dyadic", "tiny"])
+    P.scale = rng.choice([1, 1, 1, 1, 1, 1, 1, 2.0 ** 20])          # a fraction of the scale-free primitives at 2^20
+    if P.scale != 1:
+        _arr = P.arr
+        P.arr = lambda v, dtype=None: _arr([x * P.scale for x in v], "f")
     if rng.random() < 0.3:
         P.ops.append(["seterr", rng.choice(ERRMODES)])
     for _ in range(rng.choice([3, 5, 8, 10])):
-        r = rng.random()
+        r = rng.random() if P.scale == 1 else rng.choice(SCALE_FREE_R)
         deg = rng.random()
 
         def V():
@@ -274,7 +329,17 @@ def gen_vec_prog(rng):
             return P.arr(rand_vec(rng, 2, style))
 
         def fn(name, args, which=None, sc=()):
-            P.ops.append(["fn", name, list(args), which, list(sc), draw_reps(rng, name, len(args))])
+            o_ = ["fn", name, list(args), which, list(sc), draw_reps(rng, name, len(args))]
+            extra = {}
+            if which is not None and name in ("norm", "vnorm", "distance", "normalized"):
+                extra["form"] = draw_form(rng, which, "l2")
+            if sc and name in ("rot2d", "rotaxis", "sign0", "sign", "principal", "angle_diff", "solve_quadratic"):
+                extra["sreps"] = [draw_srep(rng, x, "fni3" if name in ("rot2d", "rotaxis") else "fnim") for x in sc]
+            if name == "roots":
+                extra["sreps"] = ["f", "f", rng.choice(["i", "m"])]
+            if extra:
+                o_.append(extra)
+            P.ops.append(o_)
         if r < 0.07:
             a, b = V(), V()
             fn("cross", [a, b])
@@ -308,7 +373,7 @@ def gen_vec_prog(rng):
         elif r < 0.52:
             a, b, n = V(), V(), V()
             if deg > 0.85:
-                b = P.arr([(-x if x else 0) for x in P.ops[-3][2]]) if P.ops[-3][0] == "arr" else b     # opposite vectors
+                b = P.arr([(-x if x else 0) / P.scale for x in P.ops[-3][2]]) if P.ops[-3][0] == "arr" else b     # opposite vectors
             fn("sangle2", [a, b, n])
             fn("sangle2", [b, a, n])
         elif r < 0.55:
@@ -327,7 +392,7 @@ def gen_vec_prog(rng):
             if deg > 0.88:
                 # collinear points
                 pa, pb = P.ops[-3][2], P.ops[-2][2]
-                c = P.arr([(2 * y - x) or 0 for x, y in zip(pa, pb)])
+                c = P.arr([((2 * y - x) or 0) / P.scale for x, y in zip(pa, pb)])
             fn("circum", [a, b, c])
             if rng.random() < 0.4:
                 fn("face_basis", [a, b, c])
@@ -367,7 +432,7 @@ def gen_vec_prog(rng):
                 re = 1
             fn("roots", [], None, [re, im, rng.randint(1, 8)])
         # the remaining primitives of geometry.py / maths.py / vector.py
-        r2 = rng.random()
+        r2 = rng.random() if P.scale == 1 else 1.0
         if r2 < 0.05:
             fn("quad_area", [V(), V(), V(), V()])
         elif r2 < 0.10:
@@ -388,7 +453,8 @@ def gen_vec_prog(rng):
             v = rand_vec(rng, rng.choice([1, 2, 3, 4]), "int")
             if all(x == 0 for x in v):
                 v[0] = 1
-            P.ops.append(["normalize", P.arr(v, "f"), rng.choice(KINDS)])
+            wk = rng.choice(KINDS)
+            P.ops.append(["normalize", P.arr(v, "f"), wk, {"form": draw_form(rng, wk, "l2")}])
         elif r2 < 0.40:
             # a Vec constructor called twice: the results share nothing; write into the first, look at the second
             nm = rng.choice(["zeros", "X", "Y", "Z", "random"])
@@ -462,7 +528,14 @@ def op_is_exact(op):
     return True
 
 
+def opt_term(present, term):
+    return "(Some %s)" % term if present else "None"
+
+
 def op_term(op, ob):
+    od = optd(op)
+    op = opcore(op)
+    given = od.get("form", "k") != "o"
     k = op[0]
     if k == "arr":
         return "(OArr %s %s)" % (zlit(op[1]), qvec(op[2]))
@@ -471,7 +544,7 @@ def op_term(op, ob):
     if k == "box":
         return "(OBox %s %s %s)" % (zlit(op[1]), zlit(op[2]), zlit(op[3]))
     if k == "ofpts":
-        return "(OOfPts %s %s %s)" % (zlit(op[1]), zlist(op[2]), q(op[3]))
+        return "(OOfPts %s %s %s)" % (zlit(op[1]), zlist(op[2]), opt_term(given, q(op[3])))
     if k == "pad_s":
         return "(OPadS %s %s)" % (zlit(op[1]), q(op[2]))
     if k == "pad_v":
@@ -479,19 +552,21 @@ def op_term(op, ob):
     if k in ("contains", "project"):
         return "(%s %s %s)" % ("OContains" if k == "contains" else "OProject", zlit(op[1]), zlit(op[2]))
     if k == "distance":
-        return "(ODistance %s %s %s)" % (zlit(op[1]), zlit(op[2]), KIND.get(op[3], "KBad"))
+        return "(ODistance %s %s %s)" % (zlit(op[1]), zlit(op[2]), opt_term(given, KIND.get(op[3], "KBad")))
     if k in ("union", "inter"):
         return "(%s %s %s %s)" % ("OUnion" if k == "union" else "OInter", zlit(op[1]), zlit(op[2]), zlit(op[3]))
     if k == "do_intersect":
         return "(ODoInt %s %s)" % (zlit(op[1]), zlit(op[2]))
+    if k in ("span", "center") and "store" in od:
+        return "(%s %s %s)" % ("OSpanStore" if k == "span" else "OCenterStore", zlit(op[1]), zlit(od["store"]))
     if k in ("is_empty", "span", "center"):
         return "(%s %s)" % ({"is_empty": "OIsEmpty", "span": "OSpan", "center": "OCenter"}[k], zlit(op[1]))
     if k == "unit_cube":
-        return "(OUnitCube %s %s %s)" % (zlit(op[1]), zlit(op[2]), coq_bool(op[3]))
+        return "(OUnitCube %s %s %s)" % (zlit(op[1]), zlit(op[2]), opt_term(given, coq_bool(op[3])))
     if k == "infinite":
         return "(OInfinite %s %s)" % (zlit(op[1]), zlit(op[2]))
     if k == "of_mesh":
-        return "(OOfMesh %s %s %s)" % (zlit(op[1]), zlist(op[2]), q(op[3]))
+        return "(OOfMesh %s %s %s)" % (zlit(op[1]), zlist(op[2]), opt_term(given, q(op[3])))
     if k == "vec_ctor":
         code = {"zeros": 0, "X": 1, "Y": 2, "Z": 3}.get(op[1], 9)
         va, vb = (ob["r"][1] if ob["exc"] is None and ob["r"][0] == "vs" else [[], []])
@@ -502,7 +577,7 @@ def op_term(op, ob):
         after = ob["r"][1] if ob["exc"] is None and ob["r"][0] == "v" and finite(ob["r"][1]) else None
         if after is None:
             return "OSetErr"       # not representable (nan after normalising a zero vector): judged by the oracle only
-        return "(ONormalize %s %s %s)" % (zlit(op[1]), KIND.get(op[2], "KBad"), qvec(after))
+        return "(ONormalize %s %s %s)" % (zlit(op[1]), opt_term(given, KIND.get(op[2], "KBad")), qvec(after))
     if k == "fn":
         name, args, which, sc = op[1], op[2], op[3], op[4]
         fls = []
@@ -515,7 +590,7 @@ def op_term(op, ob):
             fls = [math.cos(a), math.sin(a), math.cos(b), math.sin(b), math.cos(a + b), math.sin(a + b)]
         elif name == "roots" and r[0] == "roots":
             fls = [r[2]]
-        kk = "L2" if which is None else KIND.get(which, "KBad")
+        kk = "None" if (which is None or not given) else "(Some %s)" % KIND.get(which, "KBad")
         reps = (list(op[5]) if len(op) > 5 and op[5] else []) + ["a"] * len(args)
         return "(OFn %s %s %s %s %s %s)" % (FN[name], zlist(args), kk, coq_list([q(x) for x in sc]),
                                              coq_list([float_pair(x) for x in fls]),
@@ -701,6 +776,8 @@ def oracle_prog(prog, obs):
         except KeyError:
             pass
         # shadow update
+        if exc is None and k in ("span", "center") and "store" in optd(op) and r[0] == "v" and finite(r[1]):
+            A[optd(op)["store"]] = frs(r[1])
         if exc is None:
             if k in ("box", "ofpts", "union", "inter", "unit_cube", "of_mesh") and r[0] == "box" and finite(r[1]) and finite(r[2]):
                 B[op[1]] = (frs(r[1]), frs(r[2]))
@@ -909,6 +986,14 @@ def oracle_op(i, op, ob, A, B, ops, obs, bad):
         oracle_fn(i, op, ob, A, ops, obs, bad)
 
 
+def pair_angle_ok(t, x, y, tol=1e-8):
+    """t = atan2(y, x): (cos t, sin t) is the direction of (x, y) (any t when x = y = 0 ... then atan2 gives 0)"""
+    m = math.hypot(x, y)
+    if m == 0:
+        return abs(t) <= tol
+    return abs(math.sin(t) * x - math.cos(t) * y) <= tol * m and math.cos(t) * x + math.sin(t) * y >= (1 - tol) * m - 1e-300
+
+
 def oracle_fn(i, op, ob, A, ops, obs, bad):
     name, args, which, sc = op[1], op[2], op[3], op[4]
     exc, r = ob["exc"], ob["r"]
@@ -990,7 +1075,8 @@ def oracle_fn(i, op, ob, A, ops, obs, bad):
         c = fdot(BA, BC)
         val = r[1]
         # cot * tan = 1 with tan = |BA x BC| / (BA . BC)
-        if isinstance(val, str) or not close(float(val) * math.sqrt(float(s2)), float(c), 1e-8):
+        mag = math.sqrt(float(fdot(BA, BA)) * float(fdot(BC, BC)))
+        if isinstance(val, str) or abs(float(val) * math.sqrt(float(s2)) - float(c)) > 1e-8 * mag:
             bad(i, "fn/cotan/value", "cotan(%s, %s, %s) = %s" % (a[0], a[1], a[2], val))
         return
     if name in ("angle3", "angle3d", "sangle2", "sangle3", "angle2d"):
@@ -1003,7 +1089,7 @@ def oracle_fn(i, op, ob, A, ops, obs, bad):
             s, c = math.sqrt(float(fdot(cr, cr))), float(fdot(u, v))
             if not (-1e-12 <= t <= PI + 1e-12):
                 bad(i, "fn/%s/range" % name, "%s = %s is outside [0, pi]" % (name, t))
-            elif not close(math.sin(t) * c, math.cos(t) * s, 1e-8) or math.cos(t) * c < -1e-9:
+            elif not pair_angle_ok(t, c, s):
                 bad(i, "fn/%s/value" % name, "%s(%s) = %s" % (name, a, t))
             pr = prev_swapped([2, 1, 0] if name == "angle3" else [1, 0])
             if pr is not None and not close(pr[3], t):
@@ -1017,7 +1103,7 @@ def oracle_fn(i, op, ob, A, ops, obs, bad):
             sn = fdot(cr, n)
             s, c = math.sqrt(float(fdot(cr, cr))), float(fdot(u, v))
             sg = 1 if sn >= 0 else -1
-            if not close(math.sin(t) * c, math.cos(t) * sg * s, 1e-8) or math.cos(t) * c < -1e-9:
+            if not pair_angle_ok(t, c, sg * s):
                 bad(i, "fn/%s/value" % name, "%s(%s) = %s" % (name, a, t))
             pr = prev_swapped([1, 0, 2] if name == "sangle2" else [2, 1, 0, 3])
             # antisymmetric (mod 2 pi) whenever the reference normal orients the pair (or the vectors are collinear)
@@ -1059,8 +1145,10 @@ def oracle_fn(i, op, ob, A, ops, obs, bad):
             X, Y, Z = [[float(x) for x in w] for w in r[1]]
             G = [fdot(p, q2) for p in (X, Y, Z) for q2 in (X, Y, Z)]
             I = [1, 0, 0, 0, 1, 0, 0, 0, 1]
-            if any(abs(g - e) > 1e-9 for g, e in zip(G, I)) or any(abs(x) > 1e-9 * (1 + abs(float(y))) for x, y in zip(fcross(X, [float(t) for t in u]), u)) \
-                    or abs(fdot(Z, [float(t) for t in u])) > 1e-9 * 20 or abs(fdot(Z, [float(t) for t in v])) > 1e-9 * 20:
+            nu = math.sqrt(float(fdot(u, u)))
+            nv = math.sqrt(float(fdot(v, v)))
+            if any(abs(g - e) > 1e-9 for g, e in zip(G, I)) or any(abs(x) > 1e-9 * (1 + nu) for x in fcross(X, [float(t) for t in u])) \
+                    or abs(fdot(Z, [float(t) for t in u])) > 1e-9 * (1 + nu) or abs(fdot(Z, [float(t) for t in v])) > 1e-9 * (1 + nv):
                 bad(i, "fn/face_basis", "face_basis(%s) = %s" % (a, r[1]))
         return
     if name == "line2":
@@ -1279,6 +1367,9 @@ def slice_prog(ops, i):
         elif o[0] == "vec_ctor":
             if o[3] in need_a or o[4] in need_a:
                 keep.add(j)
+        elif o[0] in ("span", "center") and optd(o).get("store") in need_a:
+            keep.add(j)
+            need_b.add(o[1])
         elif o[0] == "setcomp":
             if o[1] in need_a:
                 keep.add(j)
@@ -1346,6 +1437,11 @@ def run(ctx):
         "constructor (zeros, X, Y, Z, random) is also made twice with the same arguments: the results must share no buffer "
         "(np.shares_memory), the first is modified in place (pad / component write) and the second, and a third made "
         "afterwards, are looked at again",
+        "call forms: every optional argument (which / padding / centered) is omitted, passed positionally or by keyword; the model "
+        "resolves an omitted argument with the default extracted from the def line (theorem C12_defaults_documented); scalar "
+        "arguments are passed as python float / int, np.float64, np.int64, np.float32, flags as bool / np.bool_ / int; a fraction of "
+        "the box programs lives at scale 2^40 or 2^-24 and of the scale-free primitive programs at 2^20; callers keep writing into "
+        "arrays they passed to a constructor and into arrays returned by span / center, then repeat the call",
         "every array argument is passed in an independently drawn representation (ndarray / Vec view / list / tuple, complex "
         "for det_2x2) where the primitive accepts it",
         "the event table is a syntactic summary (in-place operators, subscript/attribute stores, known mutating methods, "
@@ -1413,7 +1509,7 @@ def run(ctx):
     bad = []
     if b["model_ok"]:
         terms = [case_term(p, o) for p, o in zip(progs, obs)]
-        bad = ctx.run_cases("prog", HEADER, terms, "check_prog", case_type="list (op * obs)", shard=250)
+        bad = ctx.run_cases("prog", HEADER, terms, "check_prog", case_type="list (op * obs)", shard=120)
     else:
         ctx.obligation("correspondence batches", "correspondence", False, "model does not compile")
 
